@@ -115,6 +115,15 @@ structure AccW where
   pend : List (Nat × String) := []
   /-- workers whose last line was `W wait` -/
   waited : List Nat := []
+  /-- workers that were in xwait when the model's `xsignal` chose them, with the
+      line of that signal; removed when the worker's next line arrives -/
+  woken : List (Nat × Nat) := []
+  maxlat : Nat := 0           -- longest signal → next-line distance (in lines) seen
+  /-- the trace has `S` lines (one per `xsignal` in `sched_unlock`) -/
+  hasS : Bool := false
+  /-- thread of an `S` line that is waiting for its `U` line -/
+  sigBy : Option Nat := none
+  schecks : Nat := 0
   steps : Nat := 0
   wakeups : Nat := 0          -- a waiting worker came back while not finished
   signals : Nat := 0          -- unlocks that signalled while some worker was waiting
@@ -173,7 +182,9 @@ def toLoop (n totalOut : Nat) (ultra : Bool) (a : AccW) (i : Nat) (p : Proj)
 def sigCount (n totalOut : Nat) (ultra : Bool) (a : AccW) (p : Proj) (nt : Option String) : AccW :=
   if (nt.isSome || finishedP n totalOut ultra p) && a.x.ws.contains .waiting
       && !finishedP n totalOut ultra p then
-    { a with signals := a.signals + 1 }
+    let k := firstWaiting a.x.ws
+    { a with signals := a.signals + 1,
+             woken := if a.woken.any (·.1 == k) then a.woken else (k, a.line) :: a.woken }
   else a
 
 def acceptEvW (n totalOut : Nat) (ultra : Bool) (a : AccW) (e : Ev) : AccW :=
@@ -194,6 +205,9 @@ def acceptEvW (n totalOut : Nat) (ultra : Bool) (a : AccW) (e : Ev) : AccW :=
         { a with waited := a.waited.filter (· != i),
                  wakeups := if finishedP n totalOut ultra a.x.p then a.wakeups else a.wakeups + 1 }
       else a
+    let a := match a.woken.find? (·.1 == i) with
+      | some (_, l0) => { a with woken := a.woken.filter (·.1 != i), maxlat := max a.maxlat (a.line - l0) }
+      | none => a
     let a := toLoop n totalOut ultra a i e.p nt
     if a.err.isSome then a else
     if a.x.nextTask != nt then
@@ -205,8 +219,20 @@ def acceptEvW (n totalOut : Nat) (ultra : Bool) (a : AccW) (e : Ev) : AccW :=
     else
       let a := a.app n totalOut ultra (.exit i) "exit-not-allowed"
       { a with exits := a.exits + 1 }
+  else if e.kind == "S" then
+    if a.sigBy.isSome then a.fail "two-signals-in-one-unlock" else { a with sigBy := some e.tid }
   else if e.kind == "U" then
     let nt : Option String := if e.name == "-" then none else some e.name
+    -- `sched_unlock` signals exactly when a task is ready or the process has finished
+    let want := nt.isSome || finishedP n totalOut ultra e.p
+    let got := a.sigBy == some e.tid
+    let a := if a.hasS then
+        (if a.sigBy.isSome && !got then a.fail "signal-by-another-thread"
+         else if want && !got then a.fail "signal-missing (next_task != NULL || finished())"
+         else if !want && got then a.fail "signal-unexpected"
+         else { a with schecks := a.schecks + 1, sigBy := none })
+      else a
+    if a.err.isSome then a else
     match idxOf a.tids e.tid with
     | some i =>
       let k := firstWaiting a.x.ws
@@ -239,24 +265,40 @@ def acceptEvW (n totalOut : Nat) (ultra : Bool) (a : AccW) (e : Ev) : AccW :=
           else a.fail "io-delta"
   else a.fail "bad-kind"
 
-/-- replay; `starveMin`: report starvation when that many signalling unlocks
-    found a waiter and no waiter ever came back before the end -/
-def acceptTraceW (n _totalIn totalOut : Nat) (ultra : Bool) (starveMin : Nat) (evs : String) :
-    String :=
+/-- replay.  `latMin > 0`: reject when a worker that `xsignal` made runnable
+    (it was in xwait) has not come back `latMin` lines later although the
+    process was not finished — in the model it is runnable all that time
+    (`no_lost_wakeup`), so either the signal was not sent or the thread was
+    starved for that long.  `hung`: the run was killed after a time-out: the
+    last line must then be explained (a run of the model that stops there has an
+    enabled non-spurious transition, `deadlock_free_w`). -/
+def acceptTraceW (n _totalIn totalOut : Nat) (ultra : Bool) (latMin : Nat) (hung : Bool)
+    (evs : String) : String :=
   match (evs.splitOn ";").mapM parseEv with
   | none => "bad-args"
   | some [] => "bad-args"
   | some (e0 :: rest) =>
     let x0 : PW := ⟨e0.p, none, none, List.replicate n .ready⟩
-    let a0 : AccW := { x := x0 }
+    let a0 : AccW := { x := x0, hasS := (e0 :: rest).any (fun e => e.kind == "S") }
     let a := (e0 :: rest).foldl (acceptEvW n totalOut ultra) a0
     match a.err with
     | some e => e
     | none =>
-      if decide (starveMin ≤ a.signals) && a.wakeups == 0 && decide (0 < starveMin) then
-        s!"reject {a.line} wakeup-starvation signals={a.signals} wakeups=0"
+      let fin := finishedP n totalOut ultra a.x.p
+      let late := a.woken.filter (fun (_, l0) => decide (l0 + latMin ≤ a.line))
+      if decide (0 < latMin) && !fin && !late.isEmpty then
+        let (i, l0) := late.head!
+        s!"reject {a.line} lost-wakeup worker={i} signalled-at-line={l0} never-ran-again"
+      else if hung then
+        match a.woken with
+        | (i, l0) :: _ =>
+          s!"reject {a.line} hung lost-wakeup worker={i} signalled-at-line={l0} never-ran-again"
+        | [] =>
+          if a.x.ws.contains .running then s!"reject {a.line} hung worker-inside-task-never-returned"
+          else if a.x.holder.isSome then s!"reject {a.line} hung mutex-held"
+          else s!"reject {a.line} hung no-thread-runnable next={a.x.nextTask.getD "-"}"
       else
         s!"ok lines={a.line} steps={a.steps} workers={a.tids.length} wakeups={a.wakeups} " ++
-        s!"signals={a.signals} exits={a.exits}"
+        s!"signals={a.signals} maxlat={a.maxlat} exits={a.exits} schecks={a.schecks}"
 
 end LbzVerif.Lemmas.SchedD
